@@ -354,6 +354,18 @@ func c12MPD(rep *vh.Report, srv *Server, a *vref.VAsset, asset, prefix, mode str
 			}
 		}
 	}
+	// the generated AdaptationSets are distinct elements of the Period: no two share an id
+	seenID := map[string]string{}
+	for ai := range m.Periods[0].AS {
+		as := &m.Periods[0].AS[ai]
+		if as.ID == "" || len(as.Reps) == 0 {
+			continue
+		}
+		if other, dup := seenID[as.ID]; dup {
+			viol("C12.e", "duplicate-adaptation-set-id", fmt.Sprintf("AdaptationSets with representations %s and %s both have id=%q", other, as.Reps[0].ID, as.ID))
+		}
+		seenID[as.ID] = as.Reps[0].ID
+	}
 	if vt == nil || len(subs) != 4 {
 		viol("C12.e", "mpd-adaptation-sets", fmt.Sprintf("video template found=%v, %d generated subtitle representations (want 4)", vt != nil, len(subs)))
 		return
